@@ -96,7 +96,7 @@ func writeManifest() {
 var notApplicable = map[string]string{}
 
 func init() {
-	for _, id := range []string{"C03"} {
+	for _, id := range []string{} {
 		notApplicable[id] = "not claimed yet: the property-based check for this property (designed in DESIGN.md §5) has not been built and validated at this commit"
 	}
 }
